@@ -38,8 +38,10 @@ var (
 	c13Dsts      = []string{"10.0.0.1", "10.0.0.9", "2001:db8::100", "2001:db8::200"}
 	// helddown: NOTIFICATION received in OpenSent; -hdr: bad header sent by the remote in
 	// OpenConfirm; -fsm: a second OPEN in Established; -again: held down, quiet for more
-	// than 300 s, then a second protocol error
-	c13States = []string{"idle", "in-opensent", "in-openconfirm", "est-in", "est-out", "out-opensent", "helddown", "deleted", "helddown-hdr", "helddown-fsm", "helddown-again"}
+	// than 300 s, then a second protocol error; -7: NOTIFICATION with a code above Cease;
+	// -long: a second protocol error right after the first hold-down, probed 61 s later
+	// (the second hold-down lasts 120 s)
+	c13States = []string{"idle", "in-opensent", "in-openconfirm", "est-in", "est-out", "out-opensent", "helddown", "deleted", "helddown-hdr", "helddown-fsm", "helddown-again", "helddown-7", "helddown-long"}
 )
 
 // admit is the reference predicate (DESIGN.md Appendix A.7).
@@ -99,7 +101,10 @@ func c13World(t *testing.T, p c13Params) rt.Result {
 		// peers with a two-error history first, all at once: the other states would not
 		// survive the 362 s of virtual time it takes
 		var again []*hz.RConn
+		history := func(st string) bool { return st == "helddown-again" || st == "helddown-long" }
+		anyLong := false
 		for _, pp := range p.Peers {
+			anyLong = anyLong || pp.State == "helddown-long"
 			if pp.State != "helddown-again" {
 				continue
 			}
@@ -114,9 +119,36 @@ func c13World(t *testing.T, p c13Params) rt.Result {
 			rc.SendNotification(3, 1, nil)
 			again = append(again, rc)
 		}
-		if len(again) > 0 {
+		if len(again) > 0 || anyLong {
 			w.Settle()
-			time.Sleep(362 * time.Second) // hold-down (60 s) over and more than 300 s without an error
+			// timeline: +240 s first error of the -long peers, +301 s their second one (their
+			// first hold-down of 60 s is over, the second one lasts 120 s, until +421 s),
+			// +362 s second error of the -again peers; the lattice follows at once
+			time.Sleep(240 * time.Second)
+			for round := 0; round < 2 && anyLong; round++ {
+				for _, pp := range p.Peers {
+					if pp.State != "helddown-long" {
+						continue
+					}
+					if round == 0 {
+						mons[pp.Addr] = w.MustAddPeer(mkSpec(pp))
+					}
+					rc := w.ConnectTo(netip.MustParseAddr(pp.Addr), localFor(pp))
+					w.Settle()
+					if len(rc.Msgs()) != 1 {
+						w.Violate("setup: peer %s did not serve its inbound connection (round %d of its two-error history)", pp.Addr, round)
+						return
+					}
+					rc.SendNotification(3, 1, nil)
+					w.Settle()
+				}
+				if round == 0 {
+					time.Sleep(61 * time.Second)
+				}
+			}
+			if d := 362*time.Second - w.Now(); d > 0 {
+				time.Sleep(d)
+			}
 			for _, pp := range p.Peers {
 				if pp.State != "helddown-again" {
 					continue
@@ -136,7 +168,7 @@ func c13World(t *testing.T, p c13Params) rt.Result {
 			}
 		}
 		for _, pp := range p.Peers {
-			if pp.State == "helddown-again" {
+			if history(pp.State) {
 				continue
 			}
 			ps := mkSpec(pp)
@@ -149,7 +181,7 @@ func c13World(t *testing.T, p c13Params) rt.Result {
 			mons[pp.Addr] = mon
 			dst := localFor(pp)
 			switch pp.State {
-			case "in-opensent", "in-openconfirm", "est-in", "helddown", "helddown-hdr", "helddown-fsm":
+			case "in-opensent", "in-openconfirm", "est-in", "helddown", "helddown-hdr", "helddown-fsm", "helddown-7":
 				rc := w.ConnectTo(ps.Addr, dst)
 				w.Settle()
 				if len(rc.Msgs()) != 1 {
@@ -157,6 +189,9 @@ func c13World(t *testing.T, p c13Params) rt.Result {
 					return
 				}
 				switch pp.State {
+				case "helddown-7":
+					rc.SendNotification(7, 1, nil)
+					w.Settle()
 				case "helddown-hdr":
 					rc.SendOpen(rc.StdOpen(ps.RemoteAS, 90, remoteIDu))
 					w.Settle()
